@@ -1,23 +1,501 @@
-//! Byzantine / hostile operations (filled in by the checks that need them).
+//! Byzantine toolkit: nodes that use openmls directly on their MDK provider and build their own
+//! wrapper events, so that anything a modified client can emit (unauthorised commits, forged
+//! rumors, re-wrapped ciphertexts, garbage under the right exporter secret, hostile welcomes) and
+//! anything a network can do to an event in transit (byte damage, field edits) is injected into
+//! running worlds.
 
+use mdk_core::prelude::*;
+use mdk_storage_traits::groups::GroupStorage;
+use nostr::nips::nip44;
+use nostr::{Event, EventBuilder, EventId, JsonUtil, Keys, Kind, PublicKey, SecretKey, Tag, TagKind, Timestamp, UnsignedEvent};
+use openmls::prelude::*;
+use openmls_basic_credential::SignatureKeyPair;
+use openmls_traits::OpenMlsProvider;
 use serde::{Deserialize, Serialize};
+use tls_codec::Serialize as TlsSerialize;
 
-use crate::world::{Outcome, Step, World};
+use crate::node::Mdk;
+use crate::with_mdk;
+use crate::world::*;
 
 #[derive(Debug, Clone, PartialEq, Eq, Serialize, Deserialize)]
 pub enum HostileOp {
     Placeholder,
     /// storage-level operation (storediff runs carry their operations in ordinary steps)
     Store(crate::store::StOp),
-}
-
-pub fn exec(_w: &mut World, _step: &Step, _h: HostileOp) -> Outcome {
-    Outcome { text: "hostile placeholder".into(), class: "skipped", created: vec![], panicked: false }
+    /// member encrypts a rumor it forged. mode: 0 foreign pubkey (victim), 1 preset id = existing
+    /// message of another author (victim_msg), 2 preset id = own earlier message, 3 wrong hash id,
+    /// 4 honest-looking but arbitrary kind/tags/created_at
+    ForgedRumor { g: usize, mode: u8, victim: usize, victim_msg: Option<EvRef>, tag: u32 },
+    /// re-wrap the MLS ciphertext of a published event in a fresh wrapper. mode: 0 same group,
+    /// 1 other group's h tag (g2), 2 future timestamp inside skew, 3 duplicate-content new key
+    Rewrap { ev: EvRef, mode: u8, g2: usize },
+    /// commit built directly with openmls. kind: 0 remove(victim) 1 add(outsider) 2 group data
+    /// (nostr id byte flip) 3 pure self-update 4 self-update with changed identity (victim's)
+    /// 5 commit to pending proposals 6 group data (name byte flip)
+    CraftedCommit { g: usize, kind: u8, victim: usize },
+    /// proposal built directly with openmls. kind: 0 add(outsider) 1 remove(victim) 2 group data
+    CraftedProposal { g: usize, kind: u8, victim: usize },
+    /// arbitrary / mutated bytes correctly NIP-44-wrapped under the current exporter secret.
+    /// mode: 0 random bytes 1 mutated real MLS message (ev) 2 truncated 3 trailing bytes 4 empty
+    GarbageInner { g: usize, mode: u8, ev: Option<EvRef>, seed: u32 },
+    /// damage to the outer wrapper in transit. mode: 0 content byte flip 1 kind 2 created_at far
+    /// future 3 created_at ancient 4 no h tag 5 two h tags 6 short h 7 non-hex h 8 truncated
+    /// content 9 other group's h tag 10 empty content
+    MutatedOuter { ev: EvRef, mode: u8, seed: u32 },
+    /// invitation built by `node` with its own openmls group. mode: 0 fresh random group id,
+    /// 1 MLS group id of a group the victim holds (g), 2 as 1 + colliding nostr id, 3 malformed
+    /// content, 4 missing encoding tag
+    HostileWelcome { victim: usize, mode: u8, g: usize, seed: u32 },
+    /// hand a hostile welcome / re-delivery of any welcome under a new wrapper id
+    RewrappedWelcome { w: EvRef, seed: u32 },
 }
 
 pub fn short(h: &HostileOp) -> &'static str {
     match h {
         HostileOp::Placeholder => "placeholder",
         HostileOp::Store(_) => "store",
+        HostileOp::ForgedRumor { .. } => "forged_rumor",
+        HostileOp::Rewrap { .. } => "rewrap",
+        HostileOp::CraftedCommit { .. } => "crafted_commit",
+        HostileOp::CraftedProposal { .. } => "crafted_proposal",
+        HostileOp::GarbageInner { .. } => "garbage_inner",
+        HostileOp::MutatedOuter { .. } => "mutated_outer",
+        HostileOp::HostileWelcome { .. } => "hostile_welcome",
+        HostileOp::RewrappedWelcome { .. } => "rewrapped_welcome",
     }
 }
+
+fn o(class: &'static str, text: impl Into<String>) -> Outcome {
+    Outcome { text: text.into(), class, created: vec![], panicked: false }
+}
+
+/// NIP-44 wrap `mls_bytes` under the exporter secret of `epoch` (default: current) with an
+/// ephemeral key, exactly like MDK::build_message_event does.
+pub fn wrap<S: MdkStorageProvider>(mdk: &MDK<S>, gid: &GroupId, mls_bytes: &[u8], h: Option<[u8; 32]>, created_at: Option<u64>, extra_h: Option<Vec<String>>) -> Result<Event, String> {
+    let g = mdk.load_mls_group(gid).map_err(|e| e.to_string())?.ok_or("no mls group")?;
+    let rec = mdk.get_group(gid).map_err(|e| e.to_string())?.ok_or("no record")?;
+    let secret = mdk
+        .provider
+        .storage()
+        .get_group_exporter_secret(gid, g.epoch().as_u64())
+        .map_err(|e| e.to_string())?
+        .ok_or("no exporter secret for the current epoch")?;
+    let sk = SecretKey::from_slice(secret.secret.as_ref()).map_err(|e| e.to_string())?;
+    let keys = Keys::new(sk);
+    let content = nip44::encrypt(keys.secret_key(), &keys.public_key, mls_bytes, nip44::Version::default()).map_err(|e| e.to_string())?;
+    let eph = Keys::generate();
+    let mut b = EventBuilder::new(Kind::MlsGroupMessage, content);
+    match extra_h {
+        Some(list) => {
+            for v in list {
+                b = b.tag(Tag::custom(TagKind::h(), [v]));
+            }
+        }
+        None => {
+            b = b.tag(Tag::custom(TagKind::h(), [hex::encode(h.unwrap_or(rec.nostr_group_id))]));
+        }
+    }
+    if let Some(ts) = created_at {
+        b = b.custom_created_at(Timestamp::from(ts));
+    }
+    b.sign_with_keys(&eph).map_err(|e| e.to_string())
+}
+
+/// the MLS bytes inside a wrapper, using any exporter secret the node holds for the group
+pub fn unwrap_mls<S: MdkStorageProvider>(mdk: &MDK<S>, gid: &GroupId, ev: &Event) -> Option<Vec<u8>> {
+    let g = mdk.load_mls_group(gid).ok()??;
+    for e in (0..=g.epoch().as_u64()).rev() {
+        if let Ok(Some(s)) = mdk.provider.storage().get_group_exporter_secret(gid, e) {
+            if let Ok(sk) = SecretKey::from_slice(s.secret.as_ref()) {
+                let k = Keys::new(sk);
+                if let Ok(b) = nip44::decrypt_to_bytes(k.secret_key(), &k.public_key, &ev.content) {
+                    return Some(b);
+                }
+            }
+        }
+    }
+    None
+}
+
+fn signer_of<S: MdkStorageProvider>(mdk: &MDK<S>, g: &MlsGroup) -> Result<SignatureKeyPair, String> {
+    let leaf = g.own_leaf().ok_or("no own leaf")?;
+    SignatureKeyPair::read(mdk.provider.storage(), leaf.signature_key().as_slice(), g.ciphersuite().signature_algorithm()).ok_or_else(|| "no signer".to_string())
+}
+
+fn leaf_of<S: MdkStorageProvider>(g: &MlsGroup, _mdk: &MDK<S>, pk: &PublicKey) -> Option<LeafNodeIndex> {
+    g.members().find(|m| BasicCredential::try_from(m.credential.clone()).map(|c| c.identity() == pk.to_bytes().as_slice()).unwrap_or(false)).map(|m| m.index)
+}
+
+/// group context extensions of the group with one byte of the Nostr group data flipped
+fn mutated_extensions(g: &MlsGroup, name_byte: bool) -> Result<Extensions<GroupContext>, String> {
+    let mut exts = g.extensions().clone();
+    let mut found = None;
+    for e in exts.iter() {
+        if let Extension::Unknown(t, UnknownExtension(bytes)) = e {
+            if *t == 0xF2EE {
+                found = Some(bytes.clone());
+            }
+        }
+    }
+    let mut bytes = found.ok_or("no group data extension")?;
+    // layout: version u16 | nostr_group_id [32] | name <V> | ...
+    let idx = if name_byte { 2 + 32 + 1 } else { 2 + 5 };
+    if idx >= bytes.len() {
+        return Err("extension too short".into());
+    }
+    bytes[idx] ^= 0x01;
+    exts.add_or_replace(Extension::Unknown(0xF2EE, UnknownExtension(bytes))).map_err(|e| e.to_string())?;
+    Ok(exts)
+}
+
+fn publish(w: &mut World, step: &Step, node: usize, g: usize, event: Event, kind: EvKind, desc: String, result_state: Option<String>) -> EvRef {
+    let pre = w.node_state(node, g);
+    let (epoch, parent) = pre.unwrap_or((0, String::new()));
+    let origin = EvRef(step.id, 0);
+    w.publish_event(PubEvent { origin, event, kind, creator: node, g, epoch, parent_state: parent, result_state, desc, msg: None, refs_proposals: false })
+}
+
+pub fn exec(w: &mut World, step: &Step, h: HostileOp) -> Outcome {
+    let node = step.node;
+    match h {
+        HostileOp::Placeholder | HostileOp::Store(_) => o("skipped", "n/a"),
+        HostileOp::ForgedRumor { g, mode, victim, victim_msg, tag } => {
+            let Some(gid) = w.gid(g) else { return o("skipped", "no group") };
+            let own_pk = w.nodes[node].pubkey();
+            let victim_pk = w.nodes.get(victim).map(|n| n.pubkey()).unwrap_or(own_pk);
+            let node_now = (w.now as i64 + w.nodes[node].cfg.clock_offset) as u64;
+            let content = format!("FORGED-{}-{}-{} by n{node}", w.seed % 100_000, step.id, tag);
+            let mut rumor = EventBuilder::new(Kind::Custom(if mode == 4 { 30_000 + (tag % 100) as u16 } else { 9 }), content.clone())
+                .tags(vec![Tag::custom(TagKind::Custom("t".into()), [format!("forged{tag}")])])
+                .custom_created_at(Timestamp::from(if mode == 4 { 1 } else { node_now }))
+                .build(if mode == 0 { victim_pk } else { own_pk });
+            rumor.ensure_id();
+            match mode {
+                1 => {
+                    let Some(vm) = victim_msg.and_then(|r| w.ledger.iter().find(|l| l.origin == r)) else { return o("skipped", "no victim message") };
+                    rumor.id = EventId::from_hex(&vm.rumor_id).ok();
+                }
+                2 => {
+                    let mine = w.ledger.iter().rev().find(|l| l.author == node && l.g == g);
+                    let Some(m) = mine else { return o("skipped", "no own message") };
+                    rumor.id = EventId::from_hex(&m.rumor_id).ok();
+                }
+                3 => {
+                    rumor.id = Some(EventId::from_slice(&sha2_32(format!("bogus{}:{}", w.seed, step.id).as_bytes())).unwrap());
+                }
+                _ => {}
+            }
+            let json = rumor.as_json();
+            let r: Result<Event, String> = with_mdk!(w.nodes[node].mdk(), m => (|| {
+                let mut grp = m.load_mls_group(&gid).map_err(|e| e.to_string())?.ok_or("no mls group")?;
+                let signer = signer_of(m, &grp)?;
+                let out = grp.create_message(&m.provider, &signer, json.as_bytes()).map_err(|e| e.to_string())?;
+                let bytes = out.tls_serialize_detached().map_err(|e| e.to_string())?;
+                wrap(m, &gid, &bytes, None, None, None)
+            })());
+            match r {
+                Ok(ev) => {
+                    let claimed_id = rumor.id.map(|i| i.to_hex()).unwrap_or_default();
+                    let r = publish(w, step, node, g, ev, EvKind::Hostile, format!("forged_rumor mode{mode} claimed_id={claimed_id} victim=n{victim}"), None);
+                    let mut out = o("ok", format!("forged rumor mode {mode}"));
+                    out.created = vec![r];
+                    out
+                }
+                Err(e) => o("err", e),
+            }
+        }
+        HostileOp::Rewrap { ev, mode, g2 } => {
+            let Some(pe) = w.ev(ev).cloned() else { return o("skipped", "no event") };
+            let Some(gid) = w.gid(pe.g) else { return o("skipped", "no group") };
+            let other = w.groups.get(g2).map(|x| x.initial_nostr_id);
+            let node_now = (w.now as i64 + w.nodes[node].cfg.clock_offset) as u64;
+            let r: Result<Event, String> = with_mdk!(w.nodes[node].mdk(), m => (|| {
+                let bytes = unwrap_mls(m, &gid, &pe.event).ok_or("cannot open the captured wrapper")?;
+                let h = if mode == 1 { other } else { None };
+                let ts = if mode == 2 { Some(node_now + 120) } else { None };
+                wrap(m, &gid, &bytes, h, ts, None)
+            })());
+            match r {
+                Ok(e2) => {
+                    let g_target = if mode == 1 { g2 } else { pe.g };
+                    let r = publish(w, step, node, g_target.min(w.groups.len().saturating_sub(1)), e2, EvKind::Hostile, format!("rewrap of {:?} mode{mode} original_creator=n{}", ev, pe.creator), None);
+                    let mut out = o("ok", "rewrapped");
+                    out.created = vec![r];
+                    out
+                }
+                Err(e) => o("err", e),
+            }
+        }
+        HostileOp::CraftedCommit { g, kind, victim } | HostileOp::CraftedProposal { g, kind, victim } => {
+            let is_commit = matches!(step.op, Op::Hostile(HostileOp::CraftedCommit { .. }));
+            let Some(gid) = w.gid(g) else { return o("skipped", "no group") };
+            let victim_pk = w.nodes.get(victim).map(|n| n.pubkey());
+            // outsider key package for adds
+            let members = w.members_of(node, g);
+            let outsider_kp = w.nodes.iter().find(|n| !members.contains(&n.idx) && !n.key_packages.is_empty()).and_then(|n| n.key_packages.last().cloned());
+            let r: Result<(Event, Option<String>), String> = with_mdk!(w.nodes[node].mdk(), m => (|| {
+                let mut grp = m.load_mls_group(&gid).map_err(|e| e.to_string())?.ok_or("no mls group")?;
+                if grp.pending_commit().is_some() {
+                    return Err("attacker has a pending commit".into());
+                }
+                let signer = signer_of(m, &grp)?;
+                let msg: MlsMessageOut = if is_commit {
+                    match kind {
+                        0 => {
+                            let idx = victim_pk.and_then(|pk| leaf_of(&grp, m, &pk)).ok_or("victim not a member")?;
+                            if idx == grp.own_leaf_index() { return Err("self".into()); }
+                            grp.remove_members(&m.provider, &signer, &[idx]).map_err(|e| e.to_string())?.0
+                        }
+                        1 => {
+                            let kp_ev = outsider_kp.clone().ok_or("no outsider key package")?;
+                            let kp = m.parse_key_package(&kp_ev).map_err(|e| e.to_string())?;
+                            grp.add_members(&m.provider, &signer, &[kp]).map_err(|e| e.to_string())?.0
+                        }
+                        2 | 6 => {
+                            let exts = mutated_extensions(&grp, kind == 6)?;
+                            grp.update_group_context_extensions(&m.provider, exts, &signer).map_err(|e| e.to_string())?.0
+                        }
+                        3 => grp.self_update(&m.provider, &signer, LeafNodeParameters::default()).map_err(|e| e.to_string())?.into_commit(),
+                        4 => {
+                            let pk = victim_pk.ok_or("no victim")?;
+                            let cred = BasicCredential::new(pk.to_bytes().to_vec());
+                            let cwk = CredentialWithKey { credential: cred.into(), signature_key: signer.public().into() };
+                            let params = LeafNodeParameters::builder().with_credential_with_key(cwk).build();
+                            grp.self_update(&m.provider, &signer, params).map_err(|e| e.to_string())?.into_commit()
+                        }
+                        _ => grp.commit_to_pending_proposals(&m.provider, &signer).map_err(|e| e.to_string())?.0,
+                    }
+                } else {
+                    match kind {
+                        0 => {
+                            let kp_ev = outsider_kp.clone().ok_or("no outsider key package")?;
+                            let kp = m.parse_key_package(&kp_ev).map_err(|e| e.to_string())?;
+                            grp.propose_add_member(&m.provider, &signer, &kp).map_err(|e| e.to_string())?.0
+                        }
+                        1 => {
+                            let idx = victim_pk.and_then(|pk| leaf_of(&grp, m, &pk)).ok_or("victim not a member")?;
+                            grp.propose_remove_member(&m.provider, &signer, idx).map_err(|e| e.to_string())?.0
+                        }
+                        _ => {
+                            let exts = mutated_extensions(&grp, false)?;
+                            grp.propose_group_context_extensions(&m.provider, exts, &signer).map_err(|e| e.to_string())?.0
+                        }
+                    }
+                };
+                let result_state = grp.pending_commit().and_then(|c| c.epoch_authenticator().map(|a| hex::encode(a.as_slice())));
+                let bytes = msg.tls_serialize_detached().map_err(|e| e.to_string())?;
+                let ev = wrap(m, &gid, &bytes, None, None, None)?;
+                // the attacker stays where it is: drop the pending commit / own proposal
+                if is_commit {
+                    let _ = grp.clear_pending_commit(m.provider.storage());
+                } else {
+                    let _ = grp.clear_pending_proposals(m.provider.storage());
+                }
+                Ok((ev, result_state))
+            })());
+            match r {
+                Ok((ev, rs)) => {
+                    let admin = w.is_admin(node, g);
+                    let what = if is_commit { ["remove", "add", "groupdata_id", "selfupdate", "identity_change", "commit_pending", "groupdata_name"][kind.min(6) as usize] } else { ["prop_add", "prop_remove", "prop_groupdata"][kind.min(2) as usize] };
+                    let r = publish(w, step, node, g, ev, EvKind::Hostile, format!("crafted {} {what} by n{node} admin={admin} victim=n{victim}", if is_commit { "commit" } else { "proposal" }), rs);
+                    let mut out = o("ok", format!("crafted {what}"));
+                    out.created = vec![r];
+                    out
+                }
+                Err(e) => o("err", e),
+            }
+        }
+        HostileOp::GarbageInner { g, mode, ev, seed } => {
+            let Some(gid) = w.gid(g) else { return o("skipped", "no group") };
+            let mut rng = crate::rng::Rng::new(seed as u64 ^ w.seed);
+            let src = ev.and_then(|r| w.ev(r).cloned());
+            let r: Result<Event, String> = with_mdk!(w.nodes[node].mdk(), m => (|| {
+                let real = src.as_ref().and_then(|pe| unwrap_mls(m, &gid, &pe.event));
+                let bytes: Vec<u8> = match (mode, real) {
+                    (1, Some(mut b)) => {
+                        let n = 1 + rng.below(3);
+                        for _ in 0..n {
+                            let i = rng.below(b.len() as u64) as usize;
+                            b[i] ^= 1 << rng.below(8);
+                        }
+                        b
+                    }
+                    (2, Some(b)) => b[..(rng.below(b.len() as u64) as usize)].to_vec(),
+                    (3, Some(mut b)) => {
+                        let n = 1 + rng.below(8) as usize;
+                        b.extend(rng.bytes(n));
+                        b
+                    }
+                    (4, _) => vec![],
+                    _ => {
+                        let n = 1 + rng.below(200) as usize;
+                        rng.bytes(n)
+                    }
+                };
+                if bytes.is_empty() {
+                    // NIP-44 refuses empty plaintext: send one byte
+                    return wrap(m, &gid, &[0u8], None, None, None);
+                }
+                wrap(m, &gid, &bytes, None, None, None)
+            })());
+            match r {
+                Ok(e2) => {
+                    let r = publish(w, step, node, g, e2, EvKind::Hostile, format!("garbage_inner mode{mode}"), None);
+                    let mut out = o("ok", "garbage wrapped");
+                    out.created = vec![r];
+                    out
+                }
+                Err(e) => o("err", e),
+            }
+        }
+        HostileOp::MutatedOuter { ev, mode, seed } => {
+            let Some(pe) = w.ev(ev).cloned() else { return o("skipped", "no event") };
+            let mut rng = crate::rng::Rng::new(seed as u64 ^ w.seed);
+            let e = &pe.event;
+            let mut content = e.content.clone();
+            let mut kind = e.kind;
+            let mut created_at = e.created_at;
+            let mut tags: Vec<Tag> = e.tags.iter().cloned().collect();
+            let other_h = w.groups.iter().enumerate().find(|(i, _)| *i != pe.g).map(|(_, x)| hex::encode(x.initial_nostr_id));
+            match mode {
+                0 => {
+                    let mut b = content.into_bytes();
+                    if !b.is_empty() {
+                        let i = rng.below(b.len() as u64) as usize;
+                        b[i] = b"ABCDEFGHabcdefgh0123456789+/="[rng.below(29) as usize];
+                    }
+                    content = String::from_utf8_lossy(&b).to_string();
+                }
+                1 => kind = Kind::Custom(9),
+                2 => created_at = Timestamp::from(e.created_at.as_secs() + 10_000_000),
+                3 => created_at = Timestamp::from(1_000_000),
+                4 => tags.retain(|t| t.kind() != TagKind::h()),
+                5 => tags.push(Tag::custom(TagKind::h(), [hex::encode([7u8; 32])])),
+                6 => {
+                    tags.retain(|t| t.kind() != TagKind::h());
+                    tags.push(Tag::custom(TagKind::h(), ["abcd".to_string()]));
+                }
+                7 => {
+                    tags.retain(|t| t.kind() != TagKind::h());
+                    tags.push(Tag::custom(TagKind::h(), ["zz".repeat(32)]));
+                }
+                8 => {
+                    let n = rng.below(content.len().max(1) as u64) as usize;
+                    content.truncate(n);
+                }
+                9 => {
+                    if let Some(h) = other_h {
+                        tags.retain(|t| t.kind() != TagKind::h());
+                        tags.push(Tag::custom(TagKind::h(), [h]));
+                    }
+                }
+                _ => content.clear(),
+            }
+            // a relay hands over whatever it has: id/sig are not re-computed by the attacker for
+            // most modes (mdk does not verify them); re-sign with a fresh key so the event is
+            // well-formed at the Nostr layer
+            let eph = Keys::generate();
+            let built = EventBuilder::new(kind, content).tags(tags).custom_created_at(created_at).sign_with_keys(&eph);
+            match built {
+                Ok(e2) => {
+                    let r = publish(w, step, node, pe.g, e2, EvKind::Hostile, format!("mutated_outer mode{mode} of {:?}", ev), None);
+                    let mut out = o("ok", "mutated in transit");
+                    out.created = vec![r];
+                    out
+                }
+                Err(e) => o("err", e.to_string()),
+            }
+        }
+        HostileOp::HostileWelcome { victim, mode, g, seed } => {
+            let Some(vkp) = w.nodes.get(victim).and_then(|n| n.key_packages.last().cloned()) else { return o("skipped", "victim has no key package") };
+            let target_gid = w.gid(g);
+            let victim_nostr = w.gview(victim, g).and_then(|v| v.record.as_ref()).map(|r| r.nostr_group_id.clone());
+            let attacker_pk = w.nodes[node].pubkey();
+            let r: Result<UnsignedEvent, String> = with_mdk!(w.nodes[node].mdk(), m => (|| {
+                let kp = m.parse_key_package(&vkp).map_err(|e| e.to_string())?;
+                // group data: take it from a scratch group created through the public API
+                let cfg = NostrGroupConfigData::new(format!("evil-{seed}"), "evil group".into(), None, None, None, vec![crate::node::relay()], vec![attacker_pk]);
+                let scratch = m.create_group(&attacker_pk, vec![], cfg).map_err(|e| e.to_string())?;
+                let sg = m.load_mls_group(&scratch.group.mls_group_id).map_err(|e| e.to_string())?.ok_or("no scratch group")?;
+                let mut exts = sg.extensions().clone();
+                if mode == 2 {
+                    if let Some(n) = &victim_nostr {
+                        let mut idb = [0u8; 32];
+                        let _ = hex::decode_to_slice(n, &mut idb);
+                        let mut bytes = None;
+                        for e in exts.iter() {
+                            if let Extension::Unknown(0xF2EE, UnknownExtension(b)) = e {
+                                bytes = Some(b.clone());
+                            }
+                        }
+                        if let Some(mut b) = bytes {
+                            b[2..34].copy_from_slice(&idb);
+                            exts.add_or_replace(Extension::Unknown(0xF2EE, UnknownExtension(b))).map_err(|e| e.to_string())?;
+                        }
+                    }
+                }
+                let signer = signer_of(m, &sg)?;
+                let cred = sg.own_leaf().ok_or("no leaf")?.credential().clone();
+                let cwk = CredentialWithKey { credential: cred, signature_key: signer.public().into() };
+                let mut b = MlsGroup::builder()
+                    .ciphersuite(sg.ciphersuite())
+                    .use_ratchet_tree_extension(true)
+                    .with_group_context_extensions(exts)
+                    .with_capabilities(sg.own_leaf().ok_or("no leaf")?.capabilities().clone());
+                if mode == 1 || mode == 2 {
+                    if let Some(t) = &target_gid {
+                        b = b.with_group_id(openmls::group::GroupId::from_slice(t.as_slice()));
+                    }
+                }
+                let mut evil = b.build(&m.provider, &signer, cwk).map_err(|e| e.to_string())?;
+                let (_c, welcome, _gi) = evil.add_members(&m.provider, &signer, &[kp]).map_err(|e| e.to_string())?;
+                evil.merge_pending_commit(&m.provider).map_err(|e| e.to_string())?;
+                let bytes = welcome.tls_serialize_detached().map_err(|e| e.to_string())?;
+                use base64::Engine;
+                let mut content = base64::engine::general_purpose::STANDARD.encode(&bytes);
+                if mode == 3 {
+                    content = format!("!!{}", &content[..content.len() / 2]);
+                }
+                let mut tags = vec![
+                    Tag::from_standardized(nostr::TagStandard::Relays(vec![crate::node::relay()])),
+                    Tag::event(vkp.id),
+                    Tag::client("evil/0.1".to_string()),
+                ];
+                if mode != 4 {
+                    tags.push(Tag::custom(TagKind::Custom("encoding".into()), ["base64"]));
+                }
+                let mut rumor = EventBuilder::new(Kind::MlsWelcome, content).tags(tags).build(attacker_pk);
+                rumor.ensure_id();
+                // the attacker's own evil group must not linger under the victim's group id in
+                // the attacker's storage view used by the oracles: it is the attacker's problem
+                Ok(rumor)
+            })());
+            match r {
+                Ok(rumor) => {
+                    let origin = EvRef(step.id, 0);
+                    let wid = EventId::from_slice(&sha2_32(format!("hwrap:{}:{}", w.seed, step.id).as_bytes())).unwrap();
+                    w.w_index.insert(origin, w.welcomes.len());
+                    w.welcomes.push(PubWelcome { origin, wrapper_id: wid, rumor, recipient: victim, inviter: node, g, commit: None, hostile: true });
+                    let mut out = o("ok", format!("hostile welcome mode {mode}"));
+                    out.created = vec![origin];
+                    out
+                }
+                Err(e) => o("err", e),
+            }
+        }
+        HostileOp::RewrappedWelcome { w: wr, seed } => {
+            let Some(pw) = w.w_index.get(&wr).map(|i| w.welcomes[*i].clone()) else { return o("skipped", "no welcome") };
+            let origin = EvRef(step.id, 0);
+            let wid = EventId::from_slice(&sha2_32(format!("rewrapw:{}:{}:{}", w.seed, step.id, seed).as_bytes())).unwrap();
+            w.w_index.insert(origin, w.welcomes.len());
+            w.welcomes.push(PubWelcome { origin, wrapper_id: wid, hostile: true, ..pw });
+            let mut out = o("ok", "welcome under a new wrapper id");
+            out.created = vec![origin];
+            out
+        }
+    }
+}
+
+#[allow(dead_code)]
+fn _unused(_: &Mdk, _: PublicKey) {}
